@@ -358,7 +358,7 @@ impl Send {
             .queue_frame(frame.into(), buffer, stream, task);
 
         // Release any excess capacity
-        self.prioritize.reserve_capacity(0, stream, counts);
+        self.prioritize.reserve_capacity(0, stream, counts, task);
 
         Ok(())
     }
@@ -395,8 +395,10 @@ impl Send {
         capacity: WindowSize,
         stream: &mut store::Ptr,
         counts: &mut Counts,
+        task: &mut Option<Waker>,
     ) {
-        self.prioritize.reserve_capacity(capacity, stream, counts)
+        self.prioritize
+            .reserve_capacity(capacity, stream, counts, task)
     }
 
     pub fn poll_capacity(
